@@ -7,6 +7,7 @@ import (
 	"net"
 	"net/http"
 	"net/url"
+	"os"
 	"path/filepath"
 	"regexp"
 	"sort"
@@ -248,5 +249,30 @@ func init() {
 			s.obs("out rawpts %d [%s]", i, strings.Join(l, " "))
 		}
 		s.obs("out rest %d", len(data))
+	}
+}
+
+func init() {
+	// clinewline : a served directory with a file whose name contains a line break, compared with
+	// itself file by file (diff with a glob pattern), once through the directory and once through the
+	// server's URL: globbing must find the same names both ways
+	handlers["clinewline"] = func(s *sess, tk []string) {
+		s.echo(strings.Join(tk, " "))
+		dir := filepath.Join(s.dir, "nl")
+		must(os.MkdirAll(dir, 0755))
+		l := wt.ArchiveInfoList{wt.NewArchiveInfo(1, 10)}
+		for _, name := range []string{"a.wsp", "b\nc.wsp"} {
+			db, err := wt.Create(filepath.Join(dir, name), l, wt.Sum, 0.5)
+			must(err)
+			must(db.Sync())
+			db.Close()
+		}
+		run := func(srcBase, pattern string) string {
+			c := &cmd.DiffCommand{SrcBase: srcBase, SrcRelPath: pattern, DestBase: s.root, DestRelPath: "", ArchiveID: -1, TextOut: ""}
+			err, panicked := runCmd(c.Execute)
+			return statusOf(err, panicked)
+		}
+		rel := filepath.Join(filepath.Base(s.dir), "nl", "*.wsp")
+		s.obs("clinewline local=%s remote=%s", run(s.root, rel), run(s.serverURL(), rel))
 	}
 }
